@@ -13,9 +13,10 @@
                                           packets: 1 | n | w, not used here), their goroutines start in the
                                           order of the ranks, then the remaining streams round robin
                                           (Model/ServerAccept.v burst_labels, run on the interleaving machine)
-        -> <r,r,…>   as for bb; a burst yields, item by item, RemoteAddr() of each of its connections *)
+        -> <r,r,…>   as for bb; a burst yields, item by item, RemoteAddr() of each of its connections
+     clientid relay <mode> <default query> <sessions>   the proxy side (see below) *)
 From Coq Require Import List NArith Bool Arith String.
-From Snow Require Import Lib.Wire Model.ClientIdRing Model.ClientAddr Model.ServerCarrier Model.ServerAccept.
+From Snow Require Import Lib.Wire Model.ClientIdRing Model.ClientAddr Model.ServerCarrier Model.ServerAccept Model.ProxyClientIP.
 Import ListNotations.
 Open Scope N_scope.
 
@@ -36,6 +37,8 @@ Definition addr_parse (t : bytes) : option addr :=
 
 Definition addr_print (a : addr) : bytes :=
   match a with ANil => bs "n" | AStr s => 120 :: hex_encode s end.
+
+Definition PLUS : N := 43.
 
 Definition op_parse (t : bytes) : option (op addr) :=
   match t with
@@ -77,8 +80,6 @@ Definition ev_parse (t : bytes) : option event :=
   | _ => None
   end.
 
-Definition PLUS : N := 43.
-
 Definition bitem_parse (t : bytes) : option bitem :=
   match split_on DOT t with
   | [i; n; r] => match id_parse i, dec_parse_nat n, dec_parse_nat r with
@@ -97,8 +98,94 @@ Definition btok_parse (t : bytes) : option btok :=
 Definition get_print (g : option addr) : bytes :=
   match g with None => bs "_" | Some a => addr_print a end.
 
+(* ---- the proxy side: the client_ip on the relay URL (Model/ProxyClientIP.v)
+     clientid relay <mode> <default query> <session,session,...>
+        mode     s = the handlers run one after the other | c = all together (spawn all, parse all, set the query in
+                 reverse order, dial all): the interleaving machine [prun] on [seq_labels] / [conc_labels]
+        query    - | <k>=<v>+<k>=<v>...      the query the proxy's configured (default) relay URL carries by itself
+        session  <relay>;<addr>   relay = d (the broker assigned no relay URL) | u<id>[+<k>=<v>...] (the URL it assigned)
+                                  addr  = n (no remote address known) | a<address text>
+        -> per session <relay base>|<client_ip values of the dialled URL joined by +, or ->|<number of other parameters>
+           (mode c: sorted, because dials to the one default relay cannot be attributed to their sessions by the URL) *)
+Definition EQS : N := 61.
+Definition BAR : N := 124.
+
+Definition pair_parse (t : bytes) : option (bytes * bytes) :=
+  match split_on EQS t with
+  | [k; v] => Some (k, v)
+  | _ => None
+  end.
+
+Definition query_parse (t : bytes) : option (list (bytes * bytes)) :=
+  match t with
+  | [45] => Some []
+  | _ => map_opt pair_parse (split_on PLUS t)
+  end.
+
+Definition session_parse (t : bytes) : option session :=
+  match split_on SEMI t with
+  | [rl; ad] =>
+      let addr := match ad with
+                  | [110] => Some None                       (* n *)
+                  | 97 :: r => Some (Some r)                  (* a<text> *)
+                  | _ => None
+                  end in
+      let relay := match split_on PLUS rl with
+                   | [[100]] => Some None                    (* d *)
+                   | (117 :: id) :: ps =>                    (* u<id>+k=v... *)
+                       option_map (fun q => Some (mk_rurl (117 :: id) q)) (map_opt pair_parse ps)
+                   | _ => None
+                   end in
+      match relay, addr with
+      | Some r, Some a => Some (mk_session r a)
+      | _, _ => None
+      end
+  | _ => None
+  end.
+
+Definition dial_print (u : rurl) : bytes :=
+  let ips := q_values CLIENT_IP (ru_query u) in
+  ru_base u ++ [BAR] ++ (match ips with [] => bs "-" | _ => join [PLUS] ips end) ++ [BAR]
+    ++ dec_print (N.of_nat (List.length (filter (fun e => negb (beq (fst e) CLIENT_IP)) (ru_query u)))).
+
+Fixpoint dial_of (i : nat) (ds : list (nat * rurl)) : option rurl :=
+  match ds with
+  | [] => None
+  | (j, u) :: t => if Nat.eqb i j then Some u else dial_of i t
+  end.
+
+Fixpoint bytes_leb (a b : bytes) : bool :=
+  match a, b with
+  | [], _ => true
+  | _ :: _, [] => false
+  | x :: a', y :: b' => if x <? y then true else if y <? x then false else bytes_leb a' b'
+  end.
+Fixpoint ins_bytes (x : bytes) (l : list bytes) : list bytes :=
+  match l with
+  | [] => [x]
+  | y :: t => if bytes_leb x y then x :: l else y :: ins_bytes x t
+  end.
+Definition sort_bytes (l : list bytes) : list bytes := fold_right ins_bytes [] l.
+
+Definition relay_run (conc : bool) (defq : list (bytes * bytes)) (ss : list session) : bytes :=
+  let dflt := mk_rurl [100] defq in
+  let st := prun dflt (if conc then conc_labels ss else seq_labels 0 ss) in
+  let outs := map (fun i => match dial_of i (p_dials st) with Some u => dial_print u | None => bs "nodial" end)
+                  (seq 0 (List.length ss)) in
+  list_print (if conc then sort_bytes outs else outs).
+
 Definition run (args : list bytes) : bytes :=
   match args with
+  | [o; m; dq; ss] =>
+      if beq o (bs "relay") then
+        match query_parse dq, list_parse session_parse ss with
+        | Some q, Some l =>
+            if beq m (bs "s") then relay_run false q l
+            else if beq m (bs "c") then relay_run true q l
+            else ERR_BADCASE
+        | _, _ => ERR_BADCASE
+        end
+      else ERR_BADCASE
   | [o; a; b] =>
       if beq o (bs "ring") then
         match dec_parse_nat a, list_parse op_parse b with
